@@ -201,25 +201,32 @@ def _real_cond(args, cwd, timeout=60):
                                    timeout=timeout, env=env)
 
 
-def real_soak(runs_per_proc=6, procs=16, tasks=60, jobs=8, timeout=20):
-    """cond run -j 8 on many trivial tasks, several processes at once (load makes the reaper race likely).
+def real_soak(runs_per_proc=6, procs=16, tasks=60, jobs=8, timeout=20, sequential=False):
+    """parallel workload: cond run -j 8 on many trivial tasks (the reaper race of D7 needs many Popen
+    calls); sequential workload: two short teed experiments (the lost wake-up of D13 needs a child that
+    exits right when cond starts waiting).  Several cond processes at once - load widens both windows.
     Returns (runs, hangs, failures)."""
     base = pathlib.Path(tempfile.mkdtemp(prefix="cverif-soak-", dir=runner.SHM))
     try:
         script = base / "loop.sh"
         src = os.environ.get("CVERIF_SRC", "")
-        script.write_text("#!/bin/bash\ncd $1\nh=0; f=0\nfor i in $(seq 1 %d); do\n  %s timeout %d %s -m conductor run //:all -j %d >/dev/null 2>&1\n"
+        args = "run //:b --again" if sequential else "run //:all -j %d" % jobs
+        script.write_text("#!/bin/bash\ncd $1\nh=0; f=0\nfor i in $(seq 1 %d); do\n  %s timeout %d %s -m conductor %s >/dev/null 2>&1\n"
                           "  rc=$?\n  if [ $rc -eq 124 ]; then h=$((h+1)); elif [ $rc -ne 0 ]; then f=$((f+1)); fi\ndone\necho $h $f\n"
-                          % (runs_per_proc, ("PYTHONPATH=%s" % src) if src else "", timeout, sys.executable, jobs))
+                          % (runs_per_proc, ("PYTHONPATH=%s" % src) if src else "", timeout, sys.executable, args))
         ps = []
         for k in range(procs):
             d = base / ("p%d" % k)
             d.mkdir()
             (d / "cond_config.toml").write_text("")
             with open(d / "COND", "w") as f:
-                for i in range(tasks):
-                    f.write('run_command(name="t%d", run=":", parallelizable=True)\n' % i)
-                f.write('group(name="all", deps=[%s])\n' % ",".join('":t%d"' % i for i in range(tasks)))
+                if sequential:
+                    f.write('run_experiment(name="a", run="echo hi; echo err >&2")\n'
+                            'run_experiment(name="b", run="echo b", deps=[":a"])\n')
+                else:
+                    for i in range(tasks):
+                        f.write('run_command(name="t%d", run=":", parallelizable=True)\n' % i)
+                    f.write('group(name="all", deps=[%s])\n' % ",".join('":t%d"' % i for i in range(tasks)))
             ps.append(subprocess.Popen(["bash", str(script), str(d)], stdout=subprocess.PIPE, text=True))
         hangs = fails = 0
         for p in ps:
